@@ -39,6 +39,14 @@ Definition wf (t : ltree) : bool := wf_at true t.
 
 Definition list_max (l : list N) : N := fold_right N.max 0 l.
 
+(** [[f(i, x) for i, x in enumerate(l, start)]] with error propagation. *)
+Definition map_res_i {A B} (f : nat -> A -> result B) : nat -> list A -> result (list B) :=
+  fix go (i : nat) (l : list A) {struct l} : result (list B) :=
+    match l with
+    | [] => Ok []
+    | x :: l' => bind (f i x) (fun y => bind (go (S i) l') (fun r => Ok (y :: r)))
+    end.
+
 (** [{(0, 0): cell}] through [Table.from_dict]. *)
 Definition single (c : cell) : result table := from_dict [(0, 0, c)].
 
@@ -49,13 +57,7 @@ Fixpoint layout (root : bool) (p : path) (t : ltree) {struct t} : result table :
       let tb := mkTable 1 1 [(0, 0, plain (if ref then KReference else KIngredient, p) 1 1)] in
       if root then set_border tb BSub else Ok tb
   | LStep ins =>
-      bind ((fix go (i : nat) (l : list ltree) {struct l} : result (list table) :=
-               match l with
-               | [] => Ok []
-               | x :: l' =>
-                   bind (layout false (p ++ [i]) x) (fun tx =>
-                   bind (go (S i) l') (fun r => Ok (tx :: r)))
-               end) 0%nat ins) (fun input_tables =>
+      bind (map_res_i (fun i x => layout false (p ++ [i]) x) 0%nat ins) (fun input_tables =>
       match input_tables with
       | [] => Err ValueError                      (* max() arg is an empty sequence *)
       | _ =>
